@@ -4,6 +4,7 @@
    for ALL event lists `evs` (run cfg evs = fold of step from the empty server). Proofs: LifecycleP/. *)
 From Coq Require Import List String ZArith Bool.
 From Piko Require Import Base.Maps Lifecycle.Lifecycle LifecycleP.Inv LifecycleP.Theorems.
+From Piko Require Import NodeLoss.Connect NodeLossP.ConnectP.
 Import ListNotations.
 Open Scope string_scope. Open Scope list_scope.
 
@@ -141,6 +142,30 @@ Print Assumptions C16_registered_iff_open.
 Print Assumptions C16_every_end_releases.
 Print Assumptions C16_no_leak.
 Print Assumptions C16_shutdown_holds_nothing.
+(* ---- the client's side of "client close" (NodeLoss/Connect.v: client/listener.go AcceptWithContext over
+   client/upstream.go connect). The server deregisters an upstream when its connection ends; that the connection STAYS ended
+   after the application closed its listener is the client's doing: whatever the schedule - when the session is lost, when
+   Close/Shutdown is called, how the dials go while the server is unreachable - no session is established by a dial that
+   started after the listener was closed ... *)
+Theorem C16_closed_listener_never_reconnects :
+  forall (accept_done close_done : nat -> bool) (p : nat) (dials : list dial) (q : nat),
+  monotone close_done ->
+  on_session_lost UseCloseCtx accept_done close_done p dials = AReconnected q -> close_done q = false.
+Proof. exact closed_listener_never_reconnects. Qed.
+
+(* ... which is lost when the reconnect runs under the context of the Accept call instead (seeded change C16-6): a listener
+   closed while the server is unreachable connects when the server is back *)
+Theorem C16_accept_ctx_variant_refuted :
+  exists accept_done close_done p dials q,
+    monotone accept_done /\ monotone close_done /\
+    on_session_lost UseAcceptCtx accept_done close_done p dials = AReconnected q /\ close_done q = true.
+Proof. exact accept_ctx_variant_refuted. Qed.
+
+Example C16_ex_closed_during_outage :
+  on_session_lost UseCloseCtx (fun _ => false) (fun k => Nat.leb 2 k) 0 [DialRetryable; DialRetryable; DialOk] = AConnectErr
+  /\ on_session_lost UseCloseCtx (fun _ => false) (fun _ => false) 0 [DialRetryable; DialRetryable; DialOk] = AReconnected 4.
+Proof. split; [exact close_ctx_on_that_schedule|exact open_listener_reconnects]. Qed.
+
 Print Assumptions C16_counts.
 Print Assumptions C16_refuted_pinned_d1.
 Print Assumptions C16_deadline.
@@ -153,3 +178,5 @@ Print Assumptions C16_ex_all_gone.
 Print Assumptions C16_ex_d1_fixed.
 Print Assumptions C16_ex_deadline.
 Print Assumptions C16_ex_deadline_disabled.
+Print Assumptions C16_closed_listener_never_reconnects.
+Print Assumptions C16_accept_ctx_variant_refuted.
